@@ -250,11 +250,12 @@ static bool apply_op(wctx *c, int op, const uint8_t *name, size_t nlen, int vari
     case OP_FIELD_E:
     case OP_FIELD_WRONG: {
         vb_printf(&c->trace, "%s(", opname[op]); vb_hex(&c->trace, name, nlen, 12); vb_printf(&c->trace, ") ");
-        /* the name lives in its own exact-size block */
-        uint8_t *nm = vg_exact(nlen + 1);
-        if (nlen) memcpy(nm, name, nlen);
-        nm[nlen] = 0;
-        bool has_nul = memchr(name, 0, nlen) != NULL;
+        /* the name lives in its own exact-size block - or (variant bit 0x4000) is handed over where it lies: inside the document */
+        bool alias = (variant & 0x4000) != 0;
+        uint8_t *nm = alias ? (uint8_t *)(uintptr_t)name : vg_exact(nlen + 1);
+        if (!alias) { if (nlen) memcpy(nm, name, nlen); nm[nlen] = 0; }
+        bool has_nul = alias || memchr(name, 0, nlen) != NULL;
+        if (alias) vw_count("lookups_name_inside_document", 1);
         exp = vc_field(&c->m, name, nlen);
         vnode *cur = vc_current(&c->m);
         bool ok = true;
@@ -278,7 +279,7 @@ static bool apply_op(wctx *c, int op, const uint8_t *name, size_t nlen, int vari
                 vw_count("wrong_type_raised", 1);
             }
         }
-        vg_free(nm, nlen + 1);
+        if (!alias) vg_free(nm, nlen + 1);
         if (!ok) return false;
         if (c->dead) return true;
         vw_count(exp ? "lookups_found" : "lookups_absent", 1);
@@ -512,8 +513,20 @@ static void case_walk(vrng *r, uint64_t caseno, char flavor)
                 if (f->next > 0 && vt_namecmp(np, nl, f->c->kids[f->next - 1]->name, f->c->kids[f->next - 1]->name_len) <= 0) { op = OP_NEXT; }
             }
         }
+        int variant = (int)vrn(r, 1000);
+        if ((op == OP_FIELD || op == OP_FIELD_E) && !ascending_only && vrn(r, 10) == 0) {
+            /* the name is any run of bytes: here one that starts where a present field's name is stored in the document itself
+             * (as a caller gets it from get_name), shorter, equal or longer than that name */
+            vframe *f = &c.m.f[c.m.nf - 1];
+            if (f->c->nkids) {
+                vnode *kid = f->c->kids[(f->next < f->c->nkids && vrn(r, 3)) ? f->next + vrn(r, f->c->nkids - f->next) : vrn(r, f->c->nkids)];
+                size_t at = kid->name_off, l = kid->name_len;
+                switch (vrn(r, 4)) { case 0: if (l) l -= 1 + vrn(r, (uint32_t)l); break; case 1: break; case 2: l += 1; break; default: l += 1 + vrn(r, 6); break; }
+                if (at + l <= c.n) { np = c.buf + at; nl = l; variant |= 0x4000; }
+            }
+        }
         oph = oph * 1099511628211ULL + (uint64_t)op + nl * 131;
-        if (!apply_op(&c, op, np, nl, (int)vrn(r, 1000))) goto out;
+        if (!apply_op(&c, op, np, nl, variant)) goto out;
         if (c.trace.n > 6000) { memmove(c.trace.p, c.trace.p + 3000, c.trace.n - 3000); c.trace.n -= 3000; memcpy(c.trace.p, "...", 3); }
     }
     /* finish: leave everything, the last leave must succeed and leave no error */
